@@ -34,15 +34,20 @@ def _pass(seed, count, nvals, label):
     return p
 
 def _pass_ops(seed, count, label, lines_fn=None):
-    """`keyof T` and `T[K]` (two of the type forms the property lists): the C07 machinery — real compiler + runtime vs the Lean
+    """`keyof T`, `T[K]` and `Exclude<A, B>` (three of the type forms the property lists): the C07 machinery — real compiler + runtime vs the Lean
     port (tie) vs TypeScript's meaning of the operator (reference) — with the failures reported under this property"""
     from checks import c07
     def oracle(req, ir, second):
         o = c07.spec_oracle(req, ir, second)
         return o.replace("c07.", "c01.op-") if o else None
     def p(chk):
-        lines = lines_fn(chk) if lines_fn else [l for l in chk.gen_js("sub-sem", seed, count, 10) if '("R" (keyof ' in l or '("R" (idx ' in l]
-        return vcheck.corr_pass(chk, "prog", lines, label, engine="two-stage", extra_oracle=oracle, oracle_filter=lambda o: None,
+        lines = lines_fn(chk) if lines_fn else chk.gen_js("sub-sem", seed, count, 10)
+        base = vcheck.known_by_hyp(chk, {"NoObjectUnionOnLeft": "D25"})
+        def km(req, ir, orc, hyps):
+            if "c01.op-meaning" not in orc or "(exclude " not in req:
+                return None
+            return base(req, ir, "(oracle fail c01.op-meaning)", hyps)
+        return vcheck.corr_pass(chk, "prog", lines, label, engine="two-stage", extra_oracle=oracle, oracle_filter=lambda o: None, known_matcher=km,
                                 nontrivial=lambda r, i: "1" in i and "0" in i)
     return p
 
